@@ -499,6 +499,11 @@ class TableReport(ReportBase):
             elif column_id == "cost":
                 return self._get_cost_value(property_node, scenario_idx)
 
+            if column_id in ("start", "end") and self._is_unscheduled_task(property_node, scenario_idx):
+                # A task that could not be scheduled has no scheduled dates: neither a date the
+                # user pinned nor the start of work that later ran out of the horizon is one
+                return None
+
             if self.is_scenario_specific(column_id):
                 return property_node.get(column_id, scenario_idx) if hasattr(property_node, "get") else None
             else:
@@ -506,6 +511,13 @@ class TableReport(ReportBase):
         except (ValueError, KeyError, AttributeError):
             # Unknown attribute - return placeholder
             return "-"
+
+    @staticmethod
+    def _is_unscheduled_task(property_node: Any, scenario_idx: int) -> bool:
+        """True for a task that the scheduler did not place in the given scenario."""
+        from scriptplan.core.task import Task
+
+        return isinstance(property_node, Task) and not property_node.get("scheduled", scenario_idx)
 
     def _get_revenue_value(self, property_node: Any, scenario_idx: int) -> Any:
         """
